@@ -28,8 +28,10 @@ def run(tier):
         blocks = []
         for t in range(nthreads):
             cfg = None
-            while cfg is None or not any(arggen.is_cont(a["kind"]) for a in cfg["args"]):
-                cfg = g.cfg(constraints=True, allow_pos=True)
+            tries = 0
+            while cfg is None or not any(arggen.is_cont(a["kind"]) for a in cfg["args"]) or (t % 4 != 3 and not cfg["hcons"] and tries < 40):
+                cfg = g.cfg(nargs=g.r.randint(3, 7), constraints=True, allow_pos=True)      # three of four threads: with a handler constraint
+                tries += 1
             # different list separators per thread
             for a in cfg["args"]:
                 if arggen.is_cont(a["kind"]):
